@@ -41,6 +41,7 @@ type timeline struct {
 	DurMS     int
 	Restarts  []int // ms offsets from start at which a stop/start cycle happens
 	Name      string
+	LateStartMS int // start the appender this long after an interval boundary (0 = whenever)
 }
 
 func (tl timeline) String() string {
@@ -62,6 +63,13 @@ func genTimeline(t *rapid.T, label string, maxDur int) timeline {
 		Name:      rapid.SampledFrom([]string{"roll.log", "r", "a.b"}).Draw(t, label+"name"),
 	}
 	nw := rapid.SampledFrom([]int{1, 1, 2, 3, 4, 8, 16}).Draw(t, label+"writers")
+	if rapid.IntRange(0, 3).Draw(t, label+"late2s") == 0 {
+		// one writer, 2 s interval, first write late in its interval: "a write after the boundary goes
+		// to a new file" must not depend on when in the interval the appender was started
+		tl.IntervalS, nw = 2, 1
+		tl.LateStartMS = rapid.SampledFrom([]int{1100, 1500, 1900}).Draw(t, label+"lateStart")
+		tl.DurMS = max(tl.DurMS, 4200)
+	}
 	for w := 0; w < nw; w++ {
 		n := rapid.IntRange(1, 6).Draw(t, label+"nops")
 		var ops []wop
@@ -116,6 +124,10 @@ func runTimeline(tl timeline, dir string) outcome {
 			FileDir: dir, FileName: tl.Name, Rotation: log.TimeRotation{Interval: interval}, MaxAge: 1000}
 	}
 	app := newApp()
+	if tl.LateStartMS > 0 {
+		now := time.Now()
+		time.Sleep(now.Truncate(interval).Add(interval + time.Duration(tl.LateStartMS)*time.Millisecond).Sub(now) % interval)
+	}
 	if err := app.Start(); err != nil {
 		return outcome{err: fmt.Errorf("VERIF-INCONCLUSIVE: %v", err)}
 	}
@@ -192,7 +204,9 @@ func runTimeline(tl timeline, dir string) outcome {
 				gate.Unlock()
 				return outcome{err: fmt.Errorf("VERIF-INCONCLUSIVE: restart: %v", err)}
 			}
-			if c < cycles-1 {
+			if c < cycles-1 && (at+c)%3 == 1 {
+				app.Stop() // a session that writes nothing: what the reopened file already held must survive it
+			} else if c < cycles-1 {
 				restartSeq++
 				app.Write([]byte(fmt.Sprintf("w99:%d:0:%08x|\n", restartSeq, crc32.ChecksumIEEE(nil))))
 				mu.Lock() // a writer whose time is up appends its records under mu at any moment
